@@ -22,7 +22,13 @@ META = {
                    "out-parameter alone), and old_*_counterexample: the four defects of the pinned tree reproduced by the model "
                    "under the legacy policy.  The policy the theorems are instantiated with and the flow depth are re-extracted "
                    "from the working tree on every run; an unknown shape of EmitScalar/EmitYaml/SaveToStream fails closed."),
-    "level_note": ("Outside the theorem: yaml-cpp 0.7 (emitter style decisions, escaping, literal blocks, block/flow layout and "
+    "level_note": ("Round 2 (tied by the differential run and by direct monitors, theorems ref_get_set / ref_viv_read / is_flags_onehot / "
+                   "iter_list_keys / iter_list_paths): Config::Is*, the C API iterators, config_update_signature, SetItem of a shared "
+                   "sub-tree followed by a write below it, ConfigItemRef navigation (operator[] auto-vivifies its parent) with "
+                   "To*/Is*/size/HasKey/assign/Append/Clear, ConfigList / ConfigMap methods on a node, Customizer::UpdateConfigFile = "
+                   "SetItem of every patch entry + stamps + save; Save / modified / auto-save of the user-config component and "
+                   "LoadFromFile of missing / broken / empty files on the implementation only.  "
+                   "Outside the theorem: yaml-cpp 0.7 (emitter style decisions, escaping, literal blocks, block/flow layout and "
                    "indentation padding, ScanScalar's reading of literal blocks, Exp::Escape) is MODELLED from observed behaviour, "
                    "not verified; the tie is the byte-exact comparison of the model's document with SaveToStream and of the "
                    "model's parse with LoadFromStream on generated trees (all scalar classes x all layout positions, every string "
@@ -40,9 +46,10 @@ META = {
 }
 
 SRC_FILES = ["src/rime/config/config_data.cc", "src/rime/config/config_types.cc", "src/rime/config/config_component.cc",
-             "src/rime/config/config_cow_ref.h", "src/rime/config/config_types.h", "src/rime_api_impl.h"]
+             "src/rime/config/config_cow_ref.h", "src/rime/config/config_types.h", "src/rime_api_impl.h", "src/rime/signature.cc",
+             "src/rime/lever/customizer.cc"]
 GEN_OUT = os.path.join(vlib.LEAN, "RimeModel", "Gen", "C18Emit.lean")
-GENERATOR_VERSION = 1
+GENERATOR_VERSION = 2
 LF, CR = 10, 13
 
 
@@ -794,6 +801,466 @@ def gen_path_case(rng, idx):
     return ops, meta
 
 
+# ----------------------------------------------------------------------------- round 2: the remaining read / write routes
+# (Config::Is*, C API iterators, config_update_signature, SetItem with a shared sub-tree, ConfigItemRef navigation,
+#  ConfigList / ConfigMap methods on a node, Save / modified / auto-save, LoadFromFile of missing / broken / empty files)
+def tree_nodes(t, pre=()):
+    """(canonical keys, node) of every node addressable by a key path"""
+    yield list(pre), t
+    if isinstance(t, dict):
+        for k, v in t.items():
+            if k and b"/" not in k and b"\0" not in k and not is_listref(k):
+                yield from tree_nodes(v, pre + (k,))
+    elif isinstance(t, list):
+        for i, v in enumerate(t):
+            yield from tree_nodes(v, pre + (b"@%d" % i,))
+
+
+def read_keys(t, keys):
+    for k in keys:
+        t = nav_read(t, k)
+    return t
+
+
+def replace_at(t, keys, new):
+    """the tree with the node at plain / @N keys replaced (the location must exist)"""
+    if not keys:
+        return new
+    k = keys[0]
+    if is_listref(k):
+        i = int(k[1:])
+        return t[:i] + [replace_at(t[i], keys[1:], new)] + t[i + 1:]
+    out = dict(t)
+    out[k] = replace_at(t[k], keys[1:], new)
+    return out
+
+
+def steps_text(keys):
+    return ",".join(("i%d" % int(k[1:])) if is_listref(k) else "k" + hx(k) for k in keys) or "-"
+
+
+def steps_welltyped(t, keys):
+    """every node an operator[] is applied to is already the container the step asks for (no auto-vivification)"""
+    for k in keys:
+        if is_listref(k):
+            if not isinstance(t, list):
+                return False
+            i = int(k[1:])
+            t = t[i] if i < len(t) else None
+        else:
+            if not isinstance(t, dict):
+                return False
+            t = t.get(k)
+    return True
+
+
+def ref_set(t, keys, v):
+    if not keys:
+        return v
+    k = keys[0]
+    if is_listref(k):
+        i = int(k[1:])
+        lst = list(t) + [None] * (i + 1 - len(t))
+        lst[i] = ref_set(lst[i], keys[1:], v)
+        return lst
+    out = dict(t)
+    out[k] = ref_set(out.get(k), keys[1:], v)
+    return out
+
+
+def gen_api2_case(rng, idx):
+    mode = "api" if rng.random() < 0.5 else "cpp"
+    t = rand_tree(rng, rng.randrange(1, 4))
+    if rng.random() < 0.5:
+        t = {b"m": t, b"l": [t, b"x", [b"1", b"2"], {b"k": b"v"}], b"e": [], b"em": {}, b"s": rng.choice([b"v", b"12", b"true", b"0x1f", b""]),
+             b"signature": rng.choice([None, {b"generator": b"old", b"extra": b"kept"}, b"scalar", [b"l"]])}
+        if t[b"signature"] is None:
+            del t[b"signature"]
+    t = strip_nul(t)          # (the iterators hand keys out as C strings, in either mode)
+    ops, meta = ["new " + mode, "raw " + tdump(t), "dump"], [("new",), ("raw",), ("dump",)]
+    nodes = list(tree_nodes(t))
+
+    def some_path(for_write=False):
+        if rng.random() < 0.75:
+            keys, node = rng.choice(nodes)
+            p = b"/".join(keys)
+            r = rng.random()
+            if r < 0.1:
+                p = b"/" + p
+            elif r < 0.15 and p:
+                p = p + b"/"
+            return p, keys
+        p = rand_path(rng, for_write).replace(b"\0", b"0")
+        return p, canon_steps(p)
+    # SetItem(dst, GetItem(src)) links ONE sub-tree at two places (copied only when written through a key path); the in-place
+    # routes (ConfigItemRef, ConfigList / ConfigMap methods on a node) act on the node wherever it is linked.  That is the data
+    # structure's contract, not a write "at a path": a case either shares sub-trees or uses the in-place routes, never both.
+    sharing = rng.random() < 0.4
+    for _ in range(rng.randrange(2, 8)):
+        r = rng.random()
+        if sharing and r >= 0.68:
+            r = 0.47 + (r - 0.68) * 0.4
+        elif not sharing and 0.47 <= r < 0.60:
+            r = 0.68 + (r - 0.47)
+        if r < 0.15:
+            p, _k = some_path()
+            ops.append("get %s is" % hx(p))
+            meta.append(("is", p))
+        elif r < 0.40:
+            p, _k = some_path()
+            p = p.replace(b"\0", b"0")      # the iterators exist in the C API only
+            kind = rng.choice(["list", "map"])
+            ops.append("iter %s %s" % (hx(p), kind))
+            meta.append(("iter", p, kind))
+        elif r < 0.47:
+            signer = rng.choice([b"verif", b"weasel", b"", b"a b", "\u4e2d".encode()])
+            ops += ["dump", "sign " + hx(signer), "dump"]
+            meta += [("dump",), ("sign", signer), ("dump-sign", signer)]
+        elif r < 0.60:
+            src, _k = some_path()
+            dst, _k2 = some_path(True)
+            if rng.random() < 0.5:
+                dst = rng.choice([b"copy", b"m/copy", b"l/@next", b"l/@0", b"new/deep/copy", b"l/@before 0"])
+            ops += ["dump", "setitem %s %s" % (hx(dst), hx(src)), "dump"]
+            meta += [("dump",), ("setitem", dst, src), ("dump-after", dst, "item", None)]
+            # a write below the copy must not show at the source (the copy shares the sub-tree until written)
+            w = dst + b"/" + rng.choice([b"zz", b"@0", b"@next", b"k"])
+            ops += ["dump", "set %s s %s" % (hx(w), hx(b"W")), "dump"]
+            meta += [("dump",), ("set", w, "s", b"W"), ("dump-after", w, "s", b"W")]
+        elif r < 0.68:
+            dst, _k = some_path(True)
+            item = strip_nul(rand_tree(rng, rng.randrange(0, 3)))
+            ops += ["dump", "setraw %s %s" % (hx(dst), tdump(item)), "dump"]
+            meta += [("dump",), ("set", dst, "raw", item), ("dump-after", dst, "raw", item)]
+        elif r < 0.88:
+            keys, node = rng.choice(nodes)
+            keys = list(keys)
+            u = rng.random()
+            if u < 0.25:
+                keys.append(rng.choice([b"a", b"zz", b"k", b"@0", b"@3"]))
+            elif u < 0.35:
+                keys = [rng.choice([b"a", b"m", b"@1", b"l"]) for _x in range(rng.randrange(1, 4))]
+            act = rng.choice(["tos", "toi", "tob", "is", "size", "has " + hx(rng.choice([b"k", b"a", b"generator"])), "assign s " + hx(b"R"),
+                              "assign i %d" % rng.choice([0, -5, 77]), "assign b %d" % rng.randrange(2), "assign null", "clear",
+                              "append s " + hx(b"A"), "aslist", "asmap"])
+            ops += ["dump", "ref %s %s" % (steps_text(keys), act), "dump"]
+            meta += [("dump",), ("ref", keys, act), ("dump-ref", keys, act)]
+        else:
+            conts = [(k, n) for k, n in nodes if isinstance(n, (list, dict))]
+            keys, node = rng.choice(conts) if conts and rng.random() < 0.85 else rng.choice(nodes)
+            p = b"/".join(keys)
+            if isinstance(node, dict) and rng.random() < 0.8:
+                kk = rng.choice(list(node) + [b"nope"]) if node else b"nope"
+                act = rng.choice(["mapvalue " + hx(kk), "haskey " + hx(kk), "clearmap"])
+            else:
+                n = len(node) if isinstance(node, list) else 0
+                act = rng.choice(["valueat %d" % rng.randrange(n + 2), "resize %d" % rng.choice([0, max(0, n - 1), n, n + 2]), "clearlist",
+                                  "insert %d s %s" % (rng.choice([0, n, n + 2, max(0, n - 1)]), hx(b"I")),
+                                  "setat %d s %s" % (rng.choice([0, n, n + 1]), hx(b"S")), "appendl s " + hx(b"P")])
+            ops += ["dump", "node %s %s" % (hx(p), act), "dump"]
+            meta += [("dump",), ("node", p, act), ("dump-node", keys, act)]
+    ops += ["dump", "emit", "rt"]
+    meta += [("dump",), ("emit",), ("rt",)]
+    return ops, meta
+
+
+def flags_of(node, strict):
+    if node is None:
+        return "1000" if strict else "1111"
+    return "0100" if isinstance(node, bytes) else "0010" if isinstance(node, list) else "0001"
+
+
+def monitor_api2(k, m, o, before, prev):
+    """O for the round-2 ops.  `before` = the dump before the op, `prev` = (meta, output) of the op a `dump-…` follows.
+    -> (signature, text) or None"""
+    if "!" in o or "not-cleared" in o:
+        return ("C18:iterator:state", "iterator fields inconsistent: %r" % o)
+    if k == "is" and before is not None:
+        keys = canon_steps(m[1])
+        if keys is not None:
+            node = read_keys(before, keys)
+            if node is not None and o != "ret=1 val=" + flags_of(node, False):
+                return ("C18:get:is-type", "Is{Null,Value,List,Map}(%r) on %s -> %r" % (m[1], tdump(before), o))
+            if node is None and not o.startswith("ret=1 val=1"):
+                return ("C18:get:is-type", "IsNull(%r) is false although nothing is there: %r" % (m[1], o))
+    elif k == "iter" and before is not None:
+        keys = canon_steps(m[1])
+        if keys is not None:
+            node = read_keys(before, keys)
+            pre = b"" if m[1] in (b"", b"/") else m[1] + b"/"
+            if m[2] == "list" and isinstance(node, list):
+                ks = [b"@%d" % i for i in range(len(node))]
+            elif m[2] == "map" and isinstance(node, dict):
+                ks = sorted(node)
+            else:
+                ks = None
+            want = "ret=0" if ks is None else "ret=1 n=%d items=%s" % (len(ks), ",".join(hx(x) + ":" + hx(pre + x) for x in ks) or "-")
+            if o != want:
+                return ("C18:iterator:%s" % m[2], "iterating %r as %s over %s -> %r, expected %r" % (m[1], m[2], tdump(before), o[:300], want[:300]))
+    elif k == "dump-sign" and before is not None:
+        after = tundump(o[5:])
+        signer = m[1]
+        can = (before is None or isinstance(before, dict)) and (not isinstance(before, dict) or before.get(b"signature") is None
+                                                                or isinstance(before.get(b"signature"), dict))
+        if not can:
+            if after != before:
+                return ("C18:signature:clobbers", "update_signature on %s gives %s" % (tdump(before), tdump(after)))
+        else:
+            want = dict(before or {})
+            sg = dict(want.get(b"signature") or {})
+            sg.update({b"generator": signer, b"modified_time": b"T", b"distribution_code_name": b"verif", b"distribution_version": b"1",
+                       b"rime_version": b"V"})
+            want[b"signature"] = sg
+            if after != want:
+                return ("C18:signature:fields", "update_signature(%r) on %s gives %s" % (signer, tdump(before), tdump(after)))
+    elif k == "dump-ref" and before is not None:
+        after = tundump(o[5:])
+        keys, act = m[1], m[2]
+        pm, po = prev
+        if not steps_welltyped(before, keys):
+            return None            # auto-vivification territory: correspondence only
+        node = read_keys(before, keys)
+        a = act.split(" ")
+        want_out, want_tree = None, before
+        if a[0] == "tos":
+            want_out = "val=" + hx(node if isinstance(node, bytes) else b"")
+        elif a[0] == "toi":
+            w = doc_get_int(node) if isinstance(node, bytes) else None
+            want_out = "val=%d" % (w if w is not None else 0)
+        elif a[0] == "tob":
+            w = doc_get_bool(node) if isinstance(node, bytes) else None
+            want_out = "val=%d" % (w if w is not None else 0)
+        elif a[0] == "is":
+            want_out = "val=" + flags_of(node, True)
+        elif a[0] == "size":
+            want_out = "val=%d" % (len(node) if isinstance(node, list) else 0)
+        elif a[0] == "has":
+            want_out = "val=%d" % (1 if isinstance(node, dict) and node.get(unhx(a[1])) is not None else 0)
+        elif a[0] == "assign" or a[0] == "clear":
+            v = None if a[0] == "clear" or a[1] == "null" else unhx(a[2]) if a[1] == "s" else a[2].encode() if a[1] == "i" else \
+                (b"true" if a[2] == "1" else b"false")
+            want_out, want_tree = "ok", ref_set(before, keys, v)
+        elif a[0] == "append":
+            if not isinstance(node, list):
+                return None
+            want_out, want_tree = "ok", ref_set(before, keys, node + [unhx(a[2])])
+        elif a[0] == "aslist":
+            if not isinstance(node, list):
+                return None
+            want_out = "ok"
+        elif a[0] == "asmap":
+            if not isinstance(node, dict):
+                return None
+            want_out = "ok"
+        if want_out is not None and (po != want_out or after != want_tree):
+            return ("C18:ref:%s" % a[0], "(*config)%s %s on %s -> %r, tree %s; expected %r, tree %s"
+                    % (steps_text(keys), act, tdump(before), po, tdump(after), want_out, tdump(want_tree)))
+    elif k == "dump-node" and before is not None:
+        after = tundump(o[5:])
+        keys, act = m[1], m[2]
+        pm, po = prev
+        node = read_keys(before, keys)
+        a = act.split(" ")
+        listop = a[0] in ("valueat", "resize", "clearlist", "insert", "setat", "appendl")
+        want_out, new = None, node
+        if listop and not isinstance(node, list):
+            want_out = "no-list"
+        elif not listop and not isinstance(node, dict):
+            want_out = "no-map"
+        elif a[0] == "valueat":
+            i = int(a[1])
+            e = node[i] if i < len(node) else None
+            want_out = "val=" + hx(e) if isinstance(e, bytes) else "val=null"
+        elif a[0] == "mapvalue":
+            e = node.get(unhx(a[1]))
+            want_out = "val=" + hx(e) if isinstance(e, bytes) else "val=null"
+        elif a[0] == "haskey":
+            want_out = "val=%d" % (1 if node.get(unhx(a[1])) is not None else 0)
+        elif a[0] == "resize":
+            n = int(a[1])
+            want_out, new = "ok", node[:n] + [None] * (n - len(node))
+        elif a[0] == "clearlist":
+            want_out, new = "ok", []
+        elif a[0] == "clearmap":
+            want_out, new = "ok", {}
+        elif a[0] == "insert":
+            i = int(a[1])
+            lst = node + [None] * (i - len(node))
+            want_out, new = "ok", lst[:i] + [unhx(a[3])] + lst[i:]
+        elif a[0] == "setat":
+            i = int(a[1])
+            lst = node + [None] * (i + 1 - len(node))
+            lst[i] = unhx(a[3])
+            want_out, new = "ok", lst
+        elif a[0] == "appendl":
+            want_out, new = "ok", node + [unhx(a[2])]
+        want_tree = replace_at(before, keys, new) if new is not node else before
+        if po != want_out or after != want_tree:
+            return ("C18:node:%s" % a[0], "%s on the node at %r of %s -> %r, tree %s; expected %r, tree %s"
+                    % (act, b"/".join(keys), tdump(before), po, tdump(after), want_out, tdump(want_tree)))
+    return None
+
+
+def lifecycle_ops(rng):
+    """Save / modified / auto-save of the user-config component and LoadFromFile of odd files: implementation only"""
+    u = hx(rng.choice([b"u1", b"user", b"w"]))
+    k1, v1, v2 = hx(rng.choice([b"a", b"var/x", b"l/@next"])), hx(rand_word(rng)), hx(rand_word(rng))
+    return ["new cpp", "urm " + u, "uopen %s 1" % u, "modified", "set %s s %s" % (k1, v1), "modified", "rt", "new cpp", "ufile " + u,
+            "uopen %s 1" % u, "modified", "rt", "urm " + u, "new cpp", "ufile " + u,
+            "uopen %s 0" % u, "set %s s %s" % (k1, v2), "modified", "new cpp", "ufile " + u,
+            "uopen %s 0" % u, "set %s s %s" % (k1, v2), "save", "modified", "save", "rt", "ufile " + u, "new cpp", "ufile " + u,
+            "uopen %s 1" % u, "rt", "set %s s %s" % (hx(b"b"), v1), "rt", "new cpp", "ufile " + u, "urm " + u,
+            "new cpp", "raw " + tdump({b"k": b"v"}), "loadfile missing", "raw " + tdump({b"k": b"v"}), "loadfile bad",
+            "raw " + tdump({b"k": b"v"}), "loadfile empty", "new cpp"]
+
+
+def lifecycle_monitor(ops, outs):
+    """-> (sig, what) | None.  Expectations, in words: a config of the user-config component starts from its file (empty if there is
+    none) and unmodified; a successful set makes it modified; with auto-save a modified config is written when it is dropped and
+    an unmodified one is not; without auto-save nothing is written unless Save() is called; Save() writes a modified config,
+    clears the flag, and does nothing (returns false) when unmodified; LoadFromFile of a missing or broken file fails and leaves
+    an empty tree, of an empty file succeeds with an empty tree."""
+    tree = lambda o: o.split("tree=", 1)[1] if "tree=" in o else None
+    last_rt, auto, mod, expect_file = None, False, False, "none"
+    for op, o in zip(ops, outs):
+        p = op.split(" ")
+        if o == "bad-op":
+            return ("C18:harness:bad-op", "harness rejected op %r" % op)
+        if p[0] == "uopen":
+            auto, mod = p[2] == "1", False
+            if (expect_file == "none") != (tree(o) == "N") or (expect_file != "none" and tree(o) != expect_file):
+                return ("C18:lifecycle:open", "user config opens as %r, its file holds %s" % (o, expect_file))
+            cur = tree(o)
+        elif p[0] == "set":
+            if o == "ret=1":
+                mod = True
+        elif p[0] == "modified":
+            if o != "modified=%d" % mod:
+                return ("C18:lifecycle:modified-flag", "modified() is %r after %r" % (o, ops[:ops.index(op) + 1][-4:]))
+        elif p[0] == "rt":
+            last_rt = tree(o)
+        elif p[0] == "save":
+            if o != "save ret=%d" % mod:
+                return ("C18:lifecycle:save", "Save() of a%s config -> %r" % (" modified" if mod else "n unmodified", o))
+            if mod:
+                expect_file = "pending"
+            mod = False
+        elif p[0] == "new":
+            if auto and mod:
+                expect_file = "pending"
+            auto = mod = False
+        elif p[0] == "urm":
+            expect_file = "none"
+        elif p[0] == "ufile":
+            if expect_file == "pending":
+                expect_file = last_rt
+            if o != ("file none" if expect_file == "none" else "file tree=" + str(expect_file)):
+                return ("C18:lifecycle:file", "the file behind the user config holds %r, expected %s (ops so far: %s)"
+                        % (o, expect_file, " | ".join(ops[:ops.index(op) + 1][-6:])))
+        elif p[0] == "loadfile":
+            want = "load ok=%d tree=N" % (1 if p[1] == "empty" else 0)
+            if o != want:
+                return ("C18:lifecycle:loadfile", "LoadFromFile of a %s file -> %r, expected %r" % (p[1], o, want))
+    return None
+
+
+def gen_customizer(rng):
+    """source document, patch {path: item} for Customizer::UpdateConfigFile (the older route by which `<name>.custom.yaml` reaches a
+    user copy): every patch entry is a Config::SetItem at the key path, then the copy is saved"""
+    src = {b"config_version": rng.choice([b"1.0", b"0.9", b"2024", b"1.0.custom.77", b"3.custom.x.custom.y"]),
+           b"m": {b"x": b"1", b"l": [b"a", b"b"]}, b"l": [b"p", {b"k": b"v"}], b"s": b"text"}
+    if rng.random() < 0.4:
+        r_ = strip_nul(rand_tree(rng, rng.randrange(0, 3)))
+        if tree_in_domain(r_):          # (the copy goes through a save: text outside the property's domain would not survive it)
+            src[b"r"] = r_
+    patch = {}
+    for _ in range(rng.randrange(0, 4)):
+        path = rng.choice([b"m/x", b"m/new", b"l/@next", b"l/@0", b"l/@1/k", b"s", b"new/deep/er", b"m/l/@before 0", b"l/@last", b"m/l/@after last",
+                           b"s/sub", b"m/@0", b"l/k", b"l/@5", b"config_version", b"customization", b"/m/x", b"m//x", b"m/l/@1"])
+        v = rng.choice([b"v", b"", b"12", [b"i"], {b"a": b"1"}, [], {}, rand_scalar(rng)[0].replace(b"\0", b"0")])
+        if isinstance(v, bytes) and not in_domain(v):
+            v = b"v"
+        if path == b"config_version":
+            v = rng.choice([b"7", b"8.1", b"7.custom.5"])     # (a version the second comparison decides on its first number)
+        patch[path] = v
+    return src, patch
+
+
+def parse_customizer_op(op):
+    p = op.split(" ")
+    n = int(p[3])
+    return tundump(p[2]), {unhx(p[4 + 2 * k]): tundump(p[5 + 2 * k]) for k in range(n)}
+
+
+def run_customizer_cases(impl, rng, n, stats, mismatches, o_fail, fixed=None):
+    """`fixed`: customizer op lines to judge again (replay) instead of generated ones"""
+    cases = [parse_customizer_op(o) for o in fixed] if fixed else [gen_customizer(rng) for _ in range(n)]
+    ops = []
+    for src, patch in cases:
+        # (a second update compares "<v>.custom.<crc32>" with the source version; CompareVersionString parses each number into
+        #  an int, so with a source version that itself carries a ".custom." stamp a checksum >= 2^31 is signed overflow there —
+        #  version comparison is C12's subject, not this property's: asked for only where the comparison stops before the stamp)
+        twice = "0" if b".custom." in src[b"config_version"] else "1"
+        ops += ["new cpp", " ".join(["customizer", twice, tdump(src), str(len(patch))] + [hx(k) + " " + tdump(v) for k, v in sorted(patch.items())])]
+    rc, outs, log = impl.run(ops)
+    if rc != 0 or len(outs) < len(ops):
+        return True
+    eq_ops, spans = [], []
+    for i, (src, patch) in enumerate(cases):
+        m = re.match(r"cz ret=(\d) again=(\d) checksum=(\S+) tree=(\S+)", outs[2 * i + 1])
+        if not m:
+            o_fail.setdefault("C18:harness:bad-op", {"ops": ops[2 * i:2 * i + 2], "what": "customizer op rejected: %r" % outs[2 * i + 1]})
+            continue
+        ver = src[b"config_version"]
+        if b".custom." in ver:
+            ver = ver[:ver.index(b".custom.")]
+        e = ["new cpp", "raw " + tdump(src)] + ["setraw %s %s" % (hx(k), tdump(norm(v))) for k, v in sorted(patch.items())]
+        e += ["get %s s" % hx(b"config_version"), "rt"]
+        spans.append((i, len(eq_ops), len(e), m, ver))
+        eq_ops += e
+    rc2, eouts, log2 = impl.run(eq_ops)
+    mouts = model_run(eq_ops)
+    if rc2 != 0 or len(eouts) < len(eq_ops):
+        return True
+    for i, start, ln, m, ver in spans:
+        src, patch = cases[i]
+        stats["customizer_cases"] = stats.get("customizer_cases", 0) + 1
+        eo, mo = eouts[start:start + ln], mouts[start:start + ln]
+        for j in range(ln):
+            why = compare_line(eq_ops[start + j], None, eo[j], mo[j])
+            if why not in (None, "defer", "lost") and len(mismatches) < 200:
+                mismatches.append({"ops": eq_ops[start:start + j + 1], "impl": eo[j], "model": mo[j], "why": why})
+        sets_ok = all(x == "ret=1" for x in eo[2:2 + len(patch)])
+        the_ops = ops[2 * i:2 * i + 2]
+        if m.group(2) != "0" and b"config_version" not in patch and b"customization" not in patch:
+            o_fail.setdefault("C18:customizer:not-idempotent", {"ops": the_ops, "what": "a second UpdateConfigFile right after the first reports an update again"})
+        if not sets_ok:
+            # one entry cannot be written: the update fails and leaves the plain copy of the source
+            if m.group(1) != "0" or m.group(4) != tdump(norm(src)):
+                o_fail.setdefault("C18:customizer:failed-patch", {"ops": the_ops, "what": "a patch entry that SetItem rejects: update says %s, user copy %s"
+                                                                  % (m.group(1), m.group(4))})
+            continue
+        # all entries written: the user copy is the source with every entry set at its path, stamped, saved
+        rt = re.match(r"rt save=1 load=1 tree=(\S+)", eo[-1])
+        if not rt:
+            continue
+        want = tundump(rt.group(1))
+        cur = re.match(r"ret=1 val=(\S+)", eo[-2])
+        base = unhx(cur.group(1)) if cur else b""
+        if b".custom." in base:
+            base = base[:base.index(b".custom.")]
+        if not isinstance(want, dict):
+            continue
+        want = dict(want)
+        want[b"config_version"] = base + b".custom." + m.group(3).encode()
+        want[b"customization"] = m.group(3).encode()
+        if m.group(1) != "1" or m.group(4) != tdump(want):
+            o_fail.setdefault("C18:customizer:patch-is-not-set-at-path",
+                              {"ops": the_ops, "what": "UpdateConfigFile with patch %s: user copy %s, but SetItem of the entries on the source + the stamp gives %s"
+                               % (tdump(patch), m.group(4), tdump(want))})
+    return False
+
+
 CONV_STRINGS = [b"0", b"1", b"-1", b"+7", b" 12", b"\t\n 3", b"12abc", b"abc", b"", b" ", b"-", b"+", b"--1", b"0x1f", b"0x1F", b"0X1f", b"0x",
                 b"0xg", b"0x1g", b"0xffffffff", b"0x100000000", b"0x80000000", b"0x7fffffff", b"0xffffffffffffffff",
                 b"0x10000000000000000", b"-0x1", b" 0x1f", b"0x 1", b"0x-1", b"0x+1", b"0x0x1", b"0x1f\x00zz", b"1\x002", b"2147483647",
@@ -1025,6 +1492,17 @@ def run(c):
         o, m = gen_conv_case(rng, rand_conv_string(rng))
         cases.append((o, m, ("conv",)))
     run_cases(cases)
+    # round 2: Is*, iterators, signature, SetItem with shared sub-trees, ConfigItemRef, node methods
+    n_api2 = 2500 if quick else 40000
+    done = 0
+    while done < n_api2:
+        cases = []
+        for i in range(min(5000, n_api2 - done)):
+            o, m = gen_api2_case(rng, done + i)
+            cases.append((o, m, ("api2",)))
+        done += len(cases)
+        stats["api2_cases"] = stats.get("api2_cases", 0) + len(cases)
+        run_cases(cases)
     n_cases, batch = (8000, 4000) if quick else (150000, 10000)
     done = 0
     while done < n_cases:
@@ -1071,8 +1549,18 @@ def run(c):
     bad_ = file_rt_monitor(fops, fouts) if len(fouts) >= len(fops) else None
     if bad_:
         o_fail.setdefault(bad_[0], {"ops": fops, "what": bad_[1]})
+    san_abort = run_customizer_cases(impl, rng, 300 if quick else 5000, stats, mismatches, o_fail) or san_abort
+    for li in range(3 if quick else 20):
+        lops = lifecycle_ops(rng)
+        rcl, louts, llog = impl.run(lops)
+        san_abort = san_abort or rcl != 0
+        stats["lifecycle_scripts"] = stats.get("lifecycle_scripts", 0) + 1
+        bad_ = lifecycle_monitor(lops, louts) if len(louts) >= len(lops) else ("C18:lifecycle:incomplete", "the harness stopped inside the lifecycle script")
+        if bad_:
+            o_fail.setdefault(bad_[0], {"ops": lops, "what": bad_[1]})
     for sig, case in sorted(o_fail.items()):
-        small = shrink_ops(impl, case["ops"], sig)
+        # (the lifecycle script is a state machine and a customizer case is one line: reported as they are)
+        small = case["ops"] if sig.startswith(("C18:lifecycle", "C18:customizer")) else shrink_ops(impl, case["ops"], sig)
         c.report(sig, case["what"], {"kind": "ops", "ops": small})
     if san_abort:
         c.report("C18:sanitizer", "sanitizer abort / crash of the config harness", {"kind": "sanitizer", "log": (impl.san_logs or [""])[0]},
@@ -1125,14 +1613,29 @@ def monitor_case(ops, meta, outs, stats, distinct):
         k = m[0]
         if o == "bad-op":
             return ("C18:harness:bad-op", "harness rejected op %r" % op)
+        if k in ("is", "iter", "dump-sign", "dump-ref", "dump-node"):
+            stats["api2_ops"] = stats.get("api2_ops", 0) + 1
+            bad = monitor_api2(k, m, o, before, (meta[j - 1], outs[j - 1]))
+            if bad:
+                return bad
+            if k.startswith("dump-"):
+                before = tundump(o[5:])
+            continue
         if k == "dump":
             before = tundump(o[5:])
         elif k == "set":
             stats["set_ops"] += 1
             last_set = (m[1], m[2], m[3], o)
+        elif k == "setitem":
+            stats["set_ops"] += 1
+            ks = canon_steps(m[2])
+            last_set = (m[1], "item", read_keys(before, ks) if (ks is not None and before is not None) else "?", o)
         elif k == "dump-after":
             after = tundump(o[5:])
             path, ty, item, ret = last_set
+            if isinstance(item, str) and item == "?":
+                before = after
+                continue
             distinct.add(hash(("set", tdump(before), path, ty, tdump(item) if not isinstance(item, bytes) else item)))
             keys = canon_steps(path)
             if ret == "ret=0":
@@ -1231,10 +1734,41 @@ def file_rt_monitor(ops, outs):
 def monitor_ops_only(ops, outs):
     """corpus op files carry no metadata: re-derive the set groups"""
     meta = []
+    if any(op.startswith(("uopen ", "loadfile ")) for op in ops):
+        return lifecycle_monitor(ops, outs)
+    if any(op.startswith("customizer ") for op in ops):
+        return None          # judged by run_customizer_cases (needs a second run); see replay()
+
+    def keys_of_steps(txt):
+        return [] if txt == "-" else [(b"@" + x[1:].encode()) if x[0] == "i" else unhx(x[1:]) for x in txt.split(",")]
     for i, op in enumerate(ops):
         p = op.split(" ")
-        if p[0] == "dump" and i + 1 < len(ops) and ops[i + 1].startswith("set "):
+        prev = ops[i - 1].split(" ") if i > 0 else [""]
+        if p[0] == "dump" and i + 1 < len(ops) and ops[i + 1].startswith(("set ", "setitem ", "setraw ")):
             meta.append(("dump",))
+        elif p[0] == "get" and p[2] == "is":
+            meta.append(("is", unhx(p[1])))
+        elif p[0] == "iter":
+            meta.append(("iter", unhx(p[1]), p[2]))
+        elif p[0] == "sign":
+            meta.append(("sign", unhx(p[1])))
+        elif p[0] == "dump" and prev[0] == "sign":
+            meta.append(("dump-sign", unhx(prev[1])))
+        elif p[0] == "setitem":
+            meta.append(("setitem", unhx(p[1]), unhx(p[2])))
+        elif p[0] == "setraw":
+            meta.append(("set", unhx(p[1]), "raw", tundump(p[2])))
+        elif p[0] == "dump" and prev[0] in ("setitem", "setraw") and i > 1 and ops[i - 2] == "dump":
+            meta.append(("dump-after",) + tuple(meta[-1][1:]))
+        elif p[0] == "ref":
+            meta.append(("ref", keys_of_steps(p[1]), " ".join(p[2:])))
+        elif p[0] == "dump" and prev[0] == "ref":
+            meta.append(("dump-ref", keys_of_steps(prev[1]), " ".join(prev[2:])))
+        elif p[0] == "node":
+            meta.append(("node", unhx(p[1]), " ".join(p[2:])))
+        elif p[0] == "dump" and prev[0] == "node":
+            ks = canon_steps(unhx(prev[1]))
+            meta.append(("dump-node", ks, " ".join(prev[2:])) if ks is not None else ("dump",))
         elif p[0] == "set":
             ty = p[2]
             item = {"s": lambda: unhx(p[3]), "i": lambda: p[3].encode(), "b": lambda: b"true" if p[3] == "1" else b"false",
@@ -1408,6 +1942,17 @@ def replay(c, r):
         print("replay save/load of %s: document %r, %s -> %s" % (r["tree"], doc, "loaded as " + str(dumped) if loaded else "does not load",
                                                                 "VIOLATED" if fails else "ok"))
         return 1 if fails else 0
+    if kind == "ops" and any(o.startswith("customizer ") for o in r["ops"]):
+        impl = Impl(c)
+        fails = {}
+        crashed = run_customizer_cases(impl, None, 0, {}, [], fails, fixed=[o for o in r["ops"] if o.startswith("customizer ")])
+        for sig, case in fails.items():
+            print("replay customizer: VIOLATED %s: %s" % (sig, case["what"][:600]))
+        if crashed:
+            print("replay customizer: the harness aborted")
+        if not fails and not crashed:
+            print("replay customizer: ok")
+        return 1 if (fails or crashed) else 0
     if kind == "ops":
         impl = Impl(c)
         rc, outs, log = impl.run(r["ops"])
